@@ -1,4 +1,5 @@
 import ShredModel.Lemmas.Scenario
+import ShredModel.Lemmas.NestedTop
 /-!
 # C03 — barriers
 
@@ -27,4 +28,43 @@ theorem C03_barriers (l : List (Ev SysTag)) (hl : Traces sc.plan l)
 end Scenario
 end Shred
 
+
+namespace Shred
+
+/-- **C03 (a repeated barrier changes nothing).** -/
+theorem C03_addBarrier_idem (b : StagesBuilder) : b.addBarrier.addBarrier = b.addBarrier := rfl
+
+/-- **C03 (a leading barrier changes nothing).** -/
+theorem C03_addBarrier_init : ({} : StagesBuilder).addBarrier = {} := rfl
+
+/-- **C03 (a barrier where nothing was registered since the previous one changes nothing):**
+`add_barrier` only records the current number of stages; if that is what it already holds, the
+builder — hence every later placement — is unchanged. -/
+theorem C03_addBarrier_noop (b : StagesBuilder) (h : b.barrier = b.stages.length) : b.addBarrier = b := by
+  cases b; simp_all [StagesBuilder.addBarrier]
+
+/-- … and that is the situation right after a barrier: registering nothing keeps it -/
+theorem C03_barrier_after_barrier (b : StagesBuilder) : b.addBarrier.barrier = b.addBarrier.stages.length := rfl
+
+/-- **C03 on the tagged table the driver uses** (also inside batches: an inner builder is a
+builder; thread-local systems are not part of the staged table, see `C07_nested_tl_last`): a
+barrier orders every earlier registration before every later one. -/
+theorem C03_barrier_order_tagged (sc : Scenario) (τ : Nat → SysTag) (k : Nat) (hk : k ∈ sc.final.bars)
+    (x y : Nat) (hx : x < k) (hy : k ≤ y) (hyn : y < sc.final.n) :
+    TOrdered (sc.taggedStages τ) (τ x) (τ y) := by
+  obtain ⟨z, hz⟩ := sc.good
+  have hkn := hz.bars_le k hk
+  obtain ⟨sx, hsx⟩ := hz.placed (show x < sc.final.n from Nat.lt_of_lt_of_le hx hkn)
+  obtain ⟨sy, hsy⟩ := hz.placed hyn
+  have hlt := hz.sep k hk x y hx hy hyn sx sy hsx hsy
+  rw [sc.taggedStages_eq]
+  exact tOrdered_of_ordered hz τ (Or.inl ⟨sx, sy, hlt, hsx, hsy⟩)
+
+end Shred
+
 #print axioms Shred.Scenario.C03_barriers
+#print axioms Shred.C03_addBarrier_idem
+#print axioms Shred.C03_addBarrier_init
+#print axioms Shred.C03_addBarrier_noop
+#print axioms Shred.C03_barrier_after_barrier
+#print axioms Shred.C03_barrier_order_tagged
